@@ -731,7 +731,10 @@ CHECK = {
                 "(all right-hand sides are 0, every solver path returns the parameter vector 0; under the right-inverse contract "
                 "0 is the only solution of the normal equations), and if every successful iteration's transformation is the "
                 "identity the ICP loop model reports success at the first iteration whose step-difference test is evaluated and "
-                "hands out the identity. "
+                "hands out the identity; on the RANSAC rigid model with identical pairs and the identity as candidate every "
+                "residual is 0, the consensus is the whole correspondence list with rmse 0, check_ accepts the sample and "
+                "estimateModel returns true at the first draw with the full consensus handed to refine (>= 2 x draw size "
+                "correspondences). "
                 "Tied to the code on every run (a) SYNTACTICALLY: translate/tr_C06_ransac.py regenerates from the clang AST "
                 "RansacIterations (constructor, update incl. the EPSILON clamps, the size_t truncation and std::min, get), "
                 "Ransac::estimateModel as a program over an abstract RansacModel (early return, while loop, draw / countInliers / "
